@@ -1,5 +1,7 @@
 pub mod containers;
 pub mod disasm;
+pub mod evm;
+pub mod idiom;
 pub mod json;
 pub mod lift;
 pub mod pipeline;
@@ -27,6 +29,9 @@ pub fn generate(family: &str, seed: u64, n: usize, tier: &str, emit: &mut dyn Fn
         "lift" => lift::generate_lift(seed, n, tier, emit),
         "watchdog" => watchdog::generate(seed, n, tier, emit),
         "tc" => tc::generate(seed, n, tier, emit),
+        "evm" => evm::generate(seed, n, tier, emit),
+        "idiom" => idiom::generate_idiom(seed, n, tier, emit),
+        "frag" => idiom::generate_frag(seed, n, tier, emit),
         "fold" => value::generate_fold(seed, n, tier, emit),
         "size" => value::generate_size(seed, n, tier, emit),
         _ => panic!("unknown family {family}"),
@@ -51,6 +56,9 @@ pub fn eval(family: &str, payload: &str) -> String {
         "lift" => lift::eval_lift(payload),
         "watchdog" => watchdog::eval(payload),
         "tc" => tc::eval(payload),
+        "evm" => vm::eval(payload),
+        "idiom" => idiom::eval_idiom(payload),
+        "frag" => idiom::eval_frag(payload),
         "fold" => value::eval_fold(payload),
         "size" => value::eval_size(payload),
         _ => format!("err unknown-family-{family}"),
